@@ -71,7 +71,7 @@ func NewContractSet() *ContractSet {
 
 var clauseKW = map[string]bool{"func": true, "extern": true, "requires": true, "ensures": true, "invariant": true, "decreases": true,
 	"modifies": true, "loop": true, "returns": true, "let": true, "lemmas": true, "reveal": true, "field": true, "modes": true,
-	"property": true, "assert": true, "pure": true, "trusted": true, "package": true, "unroll": true, "nopanic": true, "opt": true, "havoc": true, "end": true, "shape": true, "cases": true}
+	"property": true, "assert": true, "pure": true, "trusted": true, "package": true, "unroll": true, "nopanic": true, "opt": true, "havoc": true, "end": true, "shape": true, "cases": true, "ghost": true}
 
 var kwRe = regexp.MustCompile(`^([a-z]+)(\[[AH]\])?(@\S+)?(\s|$)`)
 
@@ -131,6 +131,21 @@ func (cs *ContractSet) ParseContractLines(lines []rawLine, defPkg string, file s
 				return fmt.Errorf("%s: bad package alias", where)
 			}
 			cs.Alias[strings.TrimSpace(parts[0])] = strings.TrimSpace(parts[1])
+			continue
+		case "ghost":
+			// ghost <Type>.<field> <kind>
+			fs := strings.Fields(s.rest)
+			if len(fs) != 2 {
+				return fmt.Errorf("%s: ghost <Type>.<field> <kind>", where)
+			}
+			name := fs[0]
+			if k := strings.Index(name, "."); k >= 0 {
+				if full, ok := cs.Alias[name[:k]]; ok {
+					name = full + name[k:]
+				}
+			}
+			li := strings.LastIndex(name, ".")
+			ghostDecls[name[:li]] = append(ghostDecls[name[:li]], ghostDecl{name[li+1:], fs[1]})
 			continue
 		case "func", "extern":
 			c := &Contract{Loops: map[int]*LoopSpec{}, File: file, Line: s.line, Extern: s.kw == "extern", Pkg: defPkg, Opts: map[string]string{}}
@@ -384,4 +399,29 @@ func (cs *ContractSet) LoadAssumed(dir string) error {
 		}
 	}
 	return nil
+}
+
+type ghostDecl struct {
+	Name string
+	Kind string
+}
+
+var ghostDecls = map[string][]ghostDecl{}
+
+func ghostKind(s string) *Kind {
+	switch s {
+	case "[]byte":
+		return &Kind{K: "slice", Elem: &Kind{K: "int", Lo: "0", Hi: "255"}}
+	case "int":
+		return &Kind{K: "int"}
+	case "bool":
+		return &Kind{K: "bool"}
+	case "string":
+		return &Kind{K: "str"}
+	case "obj":
+		return &Kind{K: "obj", Name: "ghost"}
+	case "err":
+		return &Kind{K: "err"}
+	}
+	panic("unknown ghost kind " + s)
 }
